@@ -10,7 +10,7 @@ Definition in_range (ws : list Z) (i : Z) : bool := (0 <=? i) && (i <? 64 * zlen
 Definition vpairZ (p : Z * Z) : val := VL [VZ (fst p); VZ (snd p)].
 
 Definition ops_C01 : list opdef := [
-  {| op_name := "IndexRank64";
+  {| op_name := "bitmap.IndexRank64";
      op_run := fun a => match a with
        | [ws; tr] => match as_zs ws, as_bool tr with
                      | Some ws, Some tr => vzs (IndexRank64 ws tr) | _, _ => VBad end
@@ -19,7 +19,7 @@ Definition ops_C01 : list opdef := [
        | [ws; tr] => match as_zs ws, as_bool tr with
                      | Some ws, Some tr => vzs (spec_IndexRank64 ws tr) | _, _ => VBad end
        | _ => VBad end) |};
-  {| op_name := "IndexRank128";
+  {| op_name := "bitmap.IndexRank128";
      op_run := fun a => match a with
        | [ws] => match as_zs ws with Some ws => vzs (IndexRank128 ws) | _ => VBad end
        | _ => VBad end;
@@ -27,7 +27,7 @@ Definition ops_C01 : list opdef := [
        | [ws] => match as_zs ws with Some ws => vzs (spec_IndexRank128 ws) | _ => VBad end
        | _ => VBad end) |};
   (* Rank64 with the index built by IndexRank64(words, trailing) *)
-  {| op_name := "Rank64";
+  {| op_name := "bitmap.Rank64";
      op_run := fun a => match a with
        | [ws; tr; i] => match as_zs ws, as_bool tr, as_z i with
            | Some ws, Some tr, Some i =>
@@ -40,7 +40,7 @@ Definition ops_C01 : list opdef := [
        | [ws; tr; i] => match as_zs ws, as_z i with
            | Some ws, Some i => vpairZ (spec_Rank ws i) | _, _ => VBad end
        | _ => VBad end) |};
-  {| op_name := "Rank128";
+  {| op_name := "bitmap.Rank128";
      op_run := fun a => match a with
        | [ws; i] => match as_zs ws, as_z i with
            | Some ws, Some i =>
